@@ -1,0 +1,9 @@
+//go:build verif
+
+package eval
+
+// VerifNoCache disables the function-result cache (verification hook, only compiled under tag verif): the
+// checks of /verif compare runs with the cache on and off.
+var VerifNoCache bool
+
+func verifNoCache() bool { return VerifNoCache }
